@@ -752,6 +752,12 @@ def oracle_C19(tier):
                                      3000 if tier == 'quick' else 60000, cl + 1, 24))
     cases += [s for s, _ in inputs.grammar_docs('C19', 100, 3)]
     cases += ['\\left.|', '\\left(', '\\right\\rangle x', '\\Bigg\\{', '\\big|', '\\bigg.']
+    # characters that only NUL/DEL-like handling could drop: every odd
+    # white-space / format / control character at every kind of token boundary,
+    # and each alone, doubled and between structure characters
+    cases += gen.odd_char_cases()
+    for ch in gen.ODD_CHARS + ['\x02', '\x7e', '\x81', '\u200b', '\u200e', '\ufffe', '\U000e0001']:
+        cases += [ch, ch + ch, ch + '\\x', '{' + ch + '}', '$' + ch + '$', 'a' + ch + 'b', ch + '%c\n', '\\' + ch]
     for r in pmap(_c19_tok_chunk, chunked(cases, NPROC * 4)):
         res.merge(r)
     res.notes.append('exhaustive: all %d strings of length <= %d over the %d-symbol '
